@@ -2,6 +2,7 @@ package main
 
 import (
 	"fmt"
+	"go/format"
 	"os"
 	"strings"
 
@@ -126,6 +127,10 @@ func runC03(ctx *core.Ctx, idx int) *core.Result {
 	}
 	if idx%25 == 21 {
 		siteCensus(ctx, idx, res, g)
+		return res
+	}
+	if idx%50 == 11 {
+		nameSlotCase(ctx, idx, res, g)
 		return res
 	}
 	if idx%250 == 9 {
@@ -628,6 +633,62 @@ func operandCensus(ctx *core.Ctx, idx int, res *core.Result, g *gen.G) {
 // anything that treats the patch as lines of text: raw strings over several patch lines with blanks and tabs at the ends
 // of their lines, blank lines and lines that look like patch syntax inside them, strings with escapes, runes, numbers
 // in every base. Reference-free: every rewritten site holds the literal byte for byte (numbers: the same token).
+// nameSlotCase: an expression metavariable stands, on the '+' side, in a slot that admits a name only (behind the dot of a
+// selector). Where it is bound to a name the site is rewritten with that name, site by site.
+func nameSlotCase(ctx *core.Ctx, idx int, res *core.Result, g *gen.G) {
+	r := g.R
+	forms := [][3]string{
+		{"-field(recv, f)\n+recv.f\n", "field(%s, %s)", "%s.%s"},
+		{"-invoke(recv, f, 1)\n+recv.f(1)\n", "invoke(%s, %s, 1)", "%s.%s(1)"},
+		{"-field(recv, f)\n+wrap(recv.f, recv)\n", "field(%s, %s)", "wrap(%s.%s, "},
+	}
+	form := forms[r.Intn(len(forms))]
+	pt := "@@\nvar recv, f expression\n@@\n" + form[0]
+	recvs := [][2]string{{"u", "u"}, {"o.customer", "o.customer"}, {"get()", "get()"}, {"xs[0]", "xs[0]"}, {"(*p)", "(*p)"}, {"*p", "(*p)"}, {"m[\"k\"].inner", "m[\"k\"].inner"}}
+	names := []string{"Name", "Address", "id", "Value_1", "ünï", "X", "recvd", "ff"}
+	var in, want strings.Builder
+	in.WriteString("package p\n\n")
+	want.WriteString("package p\n\n")
+	ns := 1 + r.Intn(5)
+	var sig []string
+	for i := 0; i < ns; i++ {
+		rc, nm := recvs[r.Intn(len(recvs))], names[r.Intn(len(names))]
+		sig = append(sig, rc[0]+"."+nm)
+		fmt.Fprintf(&in, "func f%d() {\n\tuse("+form[1]+")\n}\n\n", i, rc[0], nm)
+		exp := fmt.Sprintf(form[2], rc[1], nm)
+		if strings.HasPrefix(form[2], "wrap(") {
+			exp += rc[0] + ")"
+		}
+		fmt.Fprintf(&want, "func f%d() {\n\tuse(%s)\n}\n\n", i, exp)
+	}
+	src := in.String()
+	if !gen.Parses(src) || !gen.Parses(want.String()) {
+		res.Inconcl++
+		return
+	}
+	wantOut, _ := format.Source([]byte(want.String()))
+	runs := applyAPI(pt, []string{src})
+	for _, run := range runs {
+		res.Evals++
+		res.Ob("name-slot-runs", 1)
+		res.Sig("name-slot", form[0], strings.Join(sig, " "))
+		rep := replayFiles(pt, src, run.Out)
+		rep["expected.go"] = string(wantOut)
+		if run.Pan != "" {
+			res.Violate("C03/engine-panic:"+core.PanicSignature(run.Pan), run.Pan, rep)
+			return
+		}
+		if run.Err != "" {
+			res.Violate("C03/engine-error/name-slot", run.Err, rep)
+			return
+		}
+		if strings.TrimSpace(run.Out) != strings.TrimSpace(string(wantOut)) {
+			res.Violate("C03/wrong-instantiation/metavariable-in-a-name-slot", "the output is not the '+' side with the names the metavariable stood for", rep)
+			return
+		}
+	}
+}
+
 func verbatimLiteralCase(ctx *core.Ctx, idx int, res *core.Result, g *gen.G) {
 	r := g.R
 	ends := []string{" ", "\t", "  \t ", "", " ,", "\t\t"}
